@@ -117,8 +117,10 @@ def driver(plan, cfg, shell_header, replies=None):
         itf = MM.cpp_fqn(p['itf']['fqn'])
         L.append(f'    std::cout << "  TYPE {p["name"]} " << (std::is_same_v<decltype({call}), {sf}::Mts<{itf}>> ? "Mts" : '
                  f'std::is_same_v<decltype({call}), {sf}::Sts<{itf}>> ? "Sts" : "other") << "\\n";')
-    base = 10
-    for p in plan['ports']:
+    # every event is used twice, the second time with other argument values (an event must keep working after its first use)
+    for rnd, again in ((0, ''), (1, ' again')):
+      base = 10 + 300 * rnd
+      for p in plan['ports']:
         if not p['exposed']:
             continue
         for e in p['itf']['events']:
@@ -126,13 +128,13 @@ def driver(plan, cfg, shell_header, replies=None):
             if p['exposed']['mc']:
                 continue      # multi-client ports are exercised by the selector driver (C04)
             if not p['requires'] and not e['out']:      # user calls a provides in-event
-                L.append(step_block(f'user {p["name"]}.in.{e["name"]}', arg_decls(e, base), call_expr(p['name'] + '_u', e, 'in'), e))
+                L.append(step_block(f'user {p["name"]}.in.{e["name"]}{again}', arg_decls(e, base), call_expr(p['name'] + '_u', e, 'in'), e))
             elif not p['requires'] and e['out']:        # the component raises a provides out-event
-                L.append(step_block(f'enc {p["name"]}.out.{e["name"]}', arg_decls(e, base), call_expr('enc->' + p['name'], e, 'out'), e))
+                L.append(step_block(f'enc {p["name"]}.out.{e["name"]}{again}', arg_decls(e, base), call_expr('enc->' + p['name'], e, 'out'), e))
             elif p['requires'] and e['out']:            # a peer raises a requires out-event
-                L.append(step_block(f'user {p["name"]}.out.{e["name"]}', arg_decls(e, base), call_expr(p['name'] + '_u', e, 'out'), e))
+                L.append(step_block(f'user {p["name"]}.out.{e["name"]}{again}', arg_decls(e, base), call_expr(p['name'] + '_u', e, 'out'), e))
             else:                                       # the component calls a requires in-event
-                L.append(step_block(f'enc {p["name"]}.in.{e["name"]}', arg_decls(e, base), call_expr('enc->' + p['name'], e, 'in'), e))
+                L.append(step_block(f'enc {p["name"]}.in.{e["name"]}{again}', arg_decls(e, base), call_expr('enc->' + p['name'], e, 'in'), e))
     # the multi-client port through client A: claim (granted), every other in-event, every out-event, release, an out-event again
     for p in plan['ports']:
         if not (p['exposed'] and p['exposed']['mc']):
@@ -183,8 +185,9 @@ def expected_trace(plan, cfg, replies=None):
     for p in plan['ports']:
         if p['exposed']:
             out.append(f'  TYPE {p["name"]} {"Mts" if p["exposed"]["mts"] else "Sts"}')
-    base = 10
-    for p in plan['ports']:
+    for rnd, again in ((0, ''), (1, ' again')):
+      base = 10 + 300 * rnd
+      for p in plan['ports']:
         if not p['exposed']:
             continue
         mts = p['exposed']['mts']
@@ -197,15 +200,15 @@ def expected_trace(plan, cfg, replies=None):
             ret = 'void' if rt == 'void' else str(replies.get(f'{p["name"]}.{e["name"]}', 0))
             outs = ','.join(show_val(f['type'], 700 + k) for k, f in enumerate(e['formals']) if f['dir'] != 'in')
             if not p['requires'] and not e['out']:
-                out.append(f'STEP user {p["name"]}.in.{e["name"]}')
+                out.append(f'STEP user {p["name"]}.in.{e["name"]}{again}')
                 out.append(f'  REC ENC {p["name"]}.in.{e["name"]}({ins}) ctx={"D" if mts else "C"}')
                 out.append(f'  RET {ret} OUTS {outs} QUEUED 0')
             elif not p['requires'] and e['out']:
-                out.append(f'STEP enc {p["name"]}.out.{e["name"]}')
+                out.append(f'STEP enc {p["name"]}.out.{e["name"]}{again}')
                 out.append(f'  REC USER {p["name"]}.out.{e["name"]}({ins}) ctx=C')
                 out.append(f'  RET void OUTS  QUEUED 0')
             elif p['requires'] and e['out']:
-                out.append(f'STEP user {p["name"]}.out.{e["name"]}')
+                out.append(f'STEP user {p["name"]}.out.{e["name"]}{again}')
                 if mts:
                     out.append(f'  RET void OUTS  QUEUED 1')
                     out.append(f'  LATE ENC {p["name"]}.out.{e["name"]}({ins}) ctx=D')
@@ -213,7 +216,7 @@ def expected_trace(plan, cfg, replies=None):
                     out.append(f'  REC ENC {p["name"]}.out.{e["name"]}({ins}) ctx=C')
                     out.append(f'  RET void OUTS  QUEUED 0')
             else:
-                out.append(f'STEP enc {p["name"]}.in.{e["name"]}')
+                out.append(f'STEP enc {p["name"]}.in.{e["name"]}{again}')
                 out.append(f'  REC USER {p["name"]}.in.{e["name"]}({ins}) ctx=C')
                 out.append(f'  RET {ret} OUTS {outs} QUEUED 0')
     for p in plan['ports']:
@@ -337,6 +340,12 @@ def fc_driver(plan, cfg, shell_header):
         pre = 'Provides'
         L.append(f'    try {{ (void)shell.{pre}MultiClient{cap(mcport["name"])}("LATE"); std::cout << "LATE-REGISTRATION-ACCEPTED\\n"; }} catch (const std::exception& e) {{ std::cout << "LATE-REGISTRATION-REFUSED\\n"; }}')
         L.append(f'    try {{ (void)shell.{pre}MultiClient{cap(mcport["name"])}("A"); std::cout << "KNOWN-CLIENT-OK\\n"; }} catch (const std::exception& e) {{ std::cout << "KNOWN-CLIENT-REFUSED\\n"; }}')
+    # final construction may be repeated (e.g. after re-parenting): whenever a call returns, the parent it was given is recorded
+    L.append('    dzn::meta parent2; parent2.name = "parent2";')
+    L.append('    for (dzn::meta* given : {&parent2, static_cast<dzn::meta*>(nullptr), &parent}) {')
+    L.append('        try { shell.FinalConstruct(given); std::cout << "AGAIN given=" << (given ? given->name : "null") << " recorded=" << (enc->dzn_meta.parent ? enc->dzn_meta.parent->name : "null") << "\\n"; }')
+    L.append('        catch (const std::exception& e) { std::cout << "AGAIN-REFUSED\\n"; }')
+    L.append('    }')
     L.append('    return 0;')
     L.append('}')
     return '\n'.join(L) + '\n', index
